@@ -6,12 +6,15 @@
 //       honest malicious-mode hybrid query with a recording interceptor; response: every observed chunk in the
 //       order in which the receiving side pulled it (consecutive chunks of one channel merged), `,`-separated:
 //       `<gate>|m|<src><dst>|<shard or ->`  helper-to-helper,  `<gate>|x|<helper>|<src>><dst>`  shard-to-shard
+//   c02.shardtraffic <shards> <pad> <records>
+//       same run; response: the shard-to-shard gates (normalised) with chunk counts, `<gate>:<n>` `,`-separated
 //   c02.tamper <shards> <pad> <records> <corrupt H1|H2|H3> <actions>
-//       same query; the interceptor alters messages sent by the corrupt helper. actions (`,`-separated, all applied
-//       in the same run): `<dest H1|H2|H3>|<shard or ->|<pattern>|<gate>`; pattern =
+//       same query; the interceptor alters messages sent by (or, to keep its own view in step, received by) the corrupt helper. actions (`,`-separated, all applied
+//       in the same run): `<src><dst>|<shard or ->|<pattern>|<gate>` (src or dst = the corrupt helper); pattern =
 //         flip:<byte offset>:<bit> | add:<byte offset>:<delta> | zero | swap          (blind, byte level)
 //         f25:<elem>:<p|m><delta> | f61:<elem>:<p|m><delta>    additive offset on field element <elem> of the channel
 //         swaprec:<size>:<a>:<b> | replay:<size>:<from>:<to>   records of <size> bytes swapped / replayed
+//         macshift:<size>:<row>:<word>:<delta>    MAC-consistent change of a shuffle row (delta in the word, key*delta in the tag)
 //       response: `abort-or-same abort:<kind>` | `abort-or-same same` | `changed <histogram>` | `untouched`
 use std::sync::{Arc, Mutex};
 
@@ -21,7 +24,7 @@ use super::{c01, proto::*};
 use crate::{
     error::Error,
     ff::{
-        Field, Fp61BitPrime, Serializable, U128Conversions,
+        Field, Fp61BitPrime, Gf32Bit, Serializable, U128Conversions,
         boolean_array::{BA3, BA8, BA32},
         ec_prime_field::Fp25519,
     },
@@ -32,7 +35,10 @@ use crate::{
     },
     protocol::{hybrid::hybrid_protocol, ipa_prf::oprf_padding::PaddingParameters},
     report::hybrid::{HybridReport, IndistinguishableHybridReport},
-    secret_sharing::{IntoShares, replicated::semi_honest::AdditiveShare as Replicated},
+    secret_sharing::{
+        IntoShares,
+        replicated::{ReplicatedSecretSharing, semi_honest::AdditiveShare as Replicated},
+    },
     test_fixture::{Reconstruct, TestWorld, TestWorldConfig, WithShards, hybrid::TestHybridRecord},
 };
 
@@ -51,6 +57,10 @@ pub enum Pattern {
     SwapRec { size: usize, a: usize, b: usize },
     /// overwrite record `to` with the bytes of the earlier record `from`
     Replay { size: usize, from: usize, to: usize },
+    /// MAC-consistent change of a shuffle row (rows of `size` bytes = data ++ 4-byte tag): `delta` is XORed into
+    /// 32-bit word `word` of row `row` and `key(word) * delta` (GF(2^32)) into its tag. `macshift:<size>:<row>:<word>:<delta>`;
+    /// the key is the one opened on `verify_shuffle/reveal_m_a_c_key` (see `exec`).
+    MacShift { size: usize, row: usize, word: usize, delta: u32 },
 }
 
 pub struct Action {
@@ -58,6 +68,8 @@ pub struct Action {
     pub key: (String, u8, u8, Option<u32>),
     pub pattern: Pattern,
     pub saved: Mutex<Option<Vec<u8>>>,
+    /// for `MacShift`: the opened MAC key of the altered word
+    pub mac_key: Option<u32>,
 }
 
 /// one observed chunk, in the order in which the receiving side pulled it
@@ -81,6 +93,8 @@ pub struct Recorder {
     pub events: Mutex<Vec<Ev>>,
     pub actions: Vec<Action>,
     pub hits: Mutex<usize>,
+    /// bytes seen on the key-opening gates of the shuffles (`…/verify_shuffle/reveal_m_a_c_key`)
+    pub key_msgs: Mutex<std::collections::BTreeMap<(String, u8, u8, Option<u32>), Vec<u8>>>,
 }
 
 fn hid(h: HelperIdentity) -> u8 {
@@ -183,6 +197,21 @@ impl Recorder {
                     }
                 }
             }
+            Pattern::MacShift { size, row, word, delta } => {
+                let lo = row * size;
+                if let (Some(k), true) = (act.mac_key, lo >= offset_before && lo + size <= end && 4 * word + 4 <= size - 4) {
+                    let i = lo - offset_before;
+                    let d = Gf32Bit::truncate_from(u128::from(*delta));
+                    let t = (Gf32Bit::truncate_from(u128::from(k)) * d).as_u128() as u32;
+                    for (b, x) in data[i + 4 * word..i + 4 * word + 4].iter_mut().zip(delta.to_le_bytes()) {
+                        *b ^= x;
+                    }
+                    for (b, x) in data[i + size - 4..i + size].iter_mut().zip(t.to_le_bytes()) {
+                        *b ^= x;
+                    }
+                    hit();
+                }
+            }
             Pattern::None => {}
         }
     }
@@ -205,6 +234,9 @@ impl StreamInterceptor for Recorder {
                 self.events.lock().unwrap().push(Ev {
                     gate: key.0.clone(), mpc: true, a: key.1, b: key.2, shard: sh, shards: (0, 0), len: data.len(),
                 });
+                if key.0.ends_with("/verify_shuffle/reveal_m_a_c_key") {
+                    self.key_msgs.lock().unwrap().entry(key.clone()).or_default().extend_from_slice(data);
+                }
                 if !data.is_empty() {
                     for act in &self.actions {
                         if act.key == key {
@@ -250,19 +282,25 @@ fn parse_pattern(s: &str) -> Pattern {
             Pattern::FieldAdd { f61: p[0] == "f61", elem: p[1].parse().unwrap(), neg, delta }
         }
         "swaprec" => Pattern::SwapRec { size: p[1].parse().unwrap(), a: p[2].parse().unwrap(), b: p[3].parse().unwrap() },
+        "macshift" => Pattern::MacShift { size: p[1].parse().unwrap(), row: p[2].parse().unwrap(), word: p[3].parse().unwrap(), delta: p[4].parse().unwrap() },
         "replay" => Pattern::Replay { size: p[1].parse().unwrap(), from: p[2].parse().unwrap(), to: p[3].parse().unwrap() },
         x => panic!("harness: bad pattern {x}"),
     }
 }
 
-/// `<dst H1|H2|H3>|<shard or ->|<pattern>|<gate>` joined by `,`
-fn parse_actions(src: u8, s: &str) -> Vec<Action> {
+/// `<src><dst>|<shard or ->|<pattern>|<gate>` joined by `,` (`<src><dst>` = two helper digits, e.g. `13` = H1 -> H3).
+/// Every action must involve the corrupt helper: a message it sends, or a message it receives (altering what the
+/// corrupt helper receives is the corrupt helper changing its own local state, e.g. to stay in step with the
+/// values it made the honest helpers hold).
+fn parse_actions(corrupt: u8, s: &str) -> Vec<Action> {
     s.split(',')
         .map(|a| {
             let f: Vec<&str> = a.split('|').collect();
-            let dst: u8 = f[0][1..].parse().unwrap();
+            let src: u8 = f[0][0..1].parse().unwrap();
+            let dst: u8 = f[0][1..2].parse().unwrap();
+            assert!(src == corrupt || dst == corrupt, "harness: action {a} does not involve the corrupt helper H{corrupt}");
             let shard = if f[1] == "-" { None } else { Some(f[1].parse().unwrap()) };
-            Action { key: (f[3].to_string(), src, dst, shard), pattern: parse_pattern(f[2]), saved: Mutex::new(None) }
+            Action { key: (f[3].to_string(), src, dst, shard), pattern: parse_pattern(f[2]), saved: Mutex::new(None), mac_key: None }
         })
         .collect()
 }
@@ -270,6 +308,8 @@ fn parse_actions(src: u8, s: &str) -> Vec<Action> {
 pub enum Outcome {
     Hist(Vec<u128>),
     Abort(String),
+    /// both honest helpers finished but their output shares do not fit together
+    Inconsistent,
 }
 
 /// Runs the hybrid protocol in malicious mode on one shard... with `shards` shards and the given recorder.
@@ -279,6 +319,7 @@ async fn run_query<const SHARDS: usize>(
     records: Vec<TestHybridRecord>,
     seed: u64,
     secs: u64,
+    corrupt: Option<u8>,
 ) -> Outcome {
     let mut config = TestWorldConfig::default().with_timeout_secs(secs);
     config.seed = seed;
@@ -301,25 +342,61 @@ async fn run_query<const SHARDS: usize>(
             hybrid_protocol::<_, BA8, BA3, BA32, 3, 256>(ctx, rows, DpMechanism::NoDp, pad)
         }))
     };
-    let fut = try_join3(helper(c1, dist(i1)), helper(c2, dist(i2)), helper(c3, dist(i3)));
-    match tokio::time::timeout(std::time::Duration::from_secs(secs), fut).await {
-        Err(_) => Outcome::Abort("hang".into()),
-        Ok(Err(e)) => {
-            let d = format!("{e:?}");
-            Outcome::Abort(d.chars().take_while(|c| c.is_alphanumeric() || *c == '_').collect())
+    let abort_of = |e: Error| -> Outcome {
+        let d = format!("{e:?}");
+        Outcome::Abort(d.chars().take_while(|c| c.is_alphanumeric() || *c == '_').collect())
+    };
+    let limit = std::time::Duration::from_secs(secs);
+    let Some(corrupt) = corrupt else {
+        // honest run: all three helpers must finish; the result is reconstructed from all three
+        let fut = try_join3(helper(c1, dist(i1)), helper(c2, dist(i2)), helper(c3, dist(i3)));
+        return match tokio::time::timeout(limit, fut).await {
+            Err(_) => Outcome::Abort("hang".into()),
+            Ok(Err(e)) => abort_of(e),
+            Ok(Ok((r1, r2, r3))) => {
+                let h: Vec<BA32> = [r1[0].clone(), r2[0].clone(), r3[0].clone()].reconstruct();
+                Outcome::Hist(h.iter().map(|x| x.as_u128()).collect())
+            }
+        };
+    };
+    // Tampered run: what counts is what the two HONEST helpers do (the corrupt helper is simulated by honest code
+    // whose messages are altered; an error raised only by that code is not an abort of the query). Abort as soon as an
+    // honest helper fails; otherwise wait for both honest helpers and reconstruct from THEIR shares only:
+    // A = corrupt+1 holds (s_A, s_B), B = corrupt+2 holds (s_B, s_C): value = s_A + s_B + s_C, and s_B must agree.
+    let mut futs: Vec<Option<std::pin::Pin<Box<dyn std::future::Future<Output = Result<Vec<Vec<Replicated<BA32>>>, Error>> + '_>>>> =
+        vec![Some(Box::pin(helper(c1, dist(i1)))), Some(Box::pin(helper(c2, dist(i2)))), Some(Box::pin(helper(c3, dist(i3))))];
+    let ia = usize::from(corrupt % 3);
+    let ib = usize::from((corrupt + 1) % 3);
+    let ic = usize::from(corrupt - 1);
+    let honest = Box::pin(futures::future::try_join(futs[ia].take().unwrap(), futs[ib].take().unwrap()));
+    let cor = futs[ic].take().unwrap();
+    let both = async move {
+        match futures::future::select(honest, cor).await {
+            futures::future::Either::Left((res, _)) => res,
+            futures::future::Either::Right((_corrupt_result, honest)) => honest.await,
         }
-        Ok(Ok((r1, r2, r3))) => {
-            let h: Vec<BA32> = [r1[0].clone(), r2[0].clone(), r3[0].clone()].reconstruct();
-            Outcome::Hist(h.iter().map(|x| x.as_u128()).collect())
+    };
+    match tokio::time::timeout(limit, both).await {
+        Err(_) => Outcome::Abort("hang".into()),
+        Ok(Err(e)) => abort_of(e),
+        Ok(Ok((ra, rb))) => {
+            let mut h = vec![];
+            for (x, y) in ra[0].iter().zip(rb[0].iter()) {
+                if x.right() != y.left() {
+                    return Outcome::Inconsistent;
+                }
+                h.push((x.left() + x.right() + y.right()).as_u128());
+            }
+            Outcome::Hist(h)
         }
     }
 }
 
-fn run_blocking(shards: usize, recorder: Arc<Recorder>, pad: PaddingParameters, records: Vec<TestHybridRecord>, seed: u64, secs: u64) -> Outcome {
+fn run_blocking(shards: usize, recorder: Arc<Recorder>, pad: PaddingParameters, records: Vec<TestHybridRecord>, seed: u64, secs: u64, corrupt: Option<u8>) -> Outcome {
     let r = block_on_timeout(secs + 20, async move {
         match shards {
-            1 => run_query::<1>(recorder, pad, records, seed, secs).await,
-            2 => run_query::<2>(recorder, pad, records, seed, secs).await,
+            1 => run_query::<1>(recorder, pad, records, seed, secs, corrupt).await,
+            2 => run_query::<2>(recorder, pad, records, seed, secs, corrupt).await,
             n => panic!("harness: unsupported shard count {n}"),
         }
     });
@@ -330,8 +407,8 @@ fn run_blocking(shards: usize, recorder: Arc<Recorder>, pad: PaddingParameters, 
 }
 
 /// A helper task that panics has crashed: the query produces no output (abort).
-fn run_guarded(shards: usize, recorder: Arc<Recorder>, pad: PaddingParameters, records: Vec<TestHybridRecord>, seed: u64, secs: u64) -> Outcome {
-    match guarded(|| run_blocking(shards, recorder, pad, records, seed, secs)) {
+fn run_guarded(shards: usize, recorder: Arc<Recorder>, pad: PaddingParameters, records: Vec<TestHybridRecord>, seed: u64, secs: u64, corrupt: u8) -> Outcome {
+    match guarded(|| run_blocking(shards, recorder, pad, records, seed, secs, Some(corrupt))) {
         Ok(o) => o,
         Err(p) => Outcome::Abort(format!("crash({})", p.chars().take(70).collect::<String>().replace(' ', "_"))),
     }
@@ -369,11 +446,28 @@ pub fn exec(req: &str) -> String {
     match t[0] {
         "c02.channels" => {
             let rec = Arc::new(Recorder::default());
-            let o = run_blocking(t[1].parse().unwrap(), rec.clone(), pad_of(t[2]), c01::parse_records(t[3]), seed_of(t[1], t[2], t[3]), 60);
+            let o = run_blocking(t[1].parse().unwrap(), rec.clone(), pad_of(t[2]), c01::parse_records(t[3]), seed_of(t[1], t[2], t[3]), 60, None);
             let evs = rec.events.lock().unwrap();
             match o {
                 Outcome::Hist(_) => events_str(&evs),
                 Outcome::Abort(k) => format!("abort:{k}"),
+                Outcome::Inconsistent => "abort:inconsistent".into(),
+            }
+        }
+        "c02.shardtraffic" => {
+            // shard-to-shard traffic inside each helper (outside the single-corrupt-helper threat model: all shards of
+            // a helper are one party): distinct normalised gates with the number of chunks, for the evidence
+            let rec = Arc::new(Recorder::default());
+            let o = run_blocking(t[1].parse().unwrap(), rec.clone(), pad_of(t[2]), c01::parse_records(t[3]), seed_of(t[1], t[2], t[3]), 60, None);
+            let mut m: std::collections::BTreeMap<String, usize> = Default::default();
+            for e in rec.events.lock().unwrap().iter().filter(|e| !e.mpc) {
+                *m.entry(normalize_gate(&e.gate)).or_insert(0) += 1;
+            }
+            match o {
+                Outcome::Hist(_) if m.is_empty() => "-".into(),
+                Outcome::Hist(_) => m.iter().map(|(g, n)| format!("{g}:{n}")).collect::<Vec<_>>().join(","),
+                Outcome::Abort(k) => format!("abort:{k}"),
+                Outcome::Inconsistent => "abort:inconsistent".into(),
             }
         }
         "c02.tamper" => {
@@ -381,22 +475,47 @@ pub fn exec(req: &str) -> String {
             let seed = seed_of(t[1], t[2], t[3]);
             let key = format!("{} {} {}", t[1], t[2], t[3]);
             let cached = HONEST.lock().unwrap().get(&key).cloned();
-            let (honest, secs) = match cached {
+            let (honest, secs, key_msgs) = match cached {
                 Some(h) => h,
                 None => {
                     let t0 = std::time::Instant::now();
-                    let honest = run_blocking(shards, Arc::new(Recorder::default()), pad_of(t[2]), c01::parse_records(t[3]), seed, 60);
+                    let rec0 = Arc::new(Recorder::default());
+                    let honest = run_blocking(shards, rec0.clone(), pad_of(t[2]), c01::parse_records(t[3]), seed, 60, None);
                     let Outcome::Hist(honest) = honest else { return "honest-run-failed".into() };
                     // a tampered run gets three times the honest run's time (at least 12 s) before it counts as a hang
                     let secs = std::cmp::max(12, 3 * t0.elapsed().as_secs() + 3);
-                    HONEST.lock().unwrap().insert(key, (honest.clone(), secs));
-                    (honest, secs)
+                    let km = rec0.key_msgs.lock().unwrap().clone();
+                    HONEST.lock().unwrap().insert(key, (honest.clone(), secs, km.clone()));
+                    (honest, secs, km)
                 }
             };
             let src: u8 = t[4][1..].parse().unwrap();
-            let rec = Arc::new(Recorder { actions: parse_actions(src, t[5]), ..Default::default() });
+            let mut actions = parse_actions(src, t[5]);
+            for a in &mut actions {
+                if let Pattern::MacShift { word, .. } = a.pattern {
+                    // The opened key of that shuffle (same shard): XOR of the three shares sent H1->H2, H2->H3, H3->H1.
+                    // The runs are deterministic (fixed PRSS seed), so this is the key of the tampered run as well. A
+                    // real helper reads it off the key share its left peer sends it (see DESIGN.md 10.4, finding F14).
+                    let Some(cut) = a.key.0.rfind('/') else { continue };
+                    let kg = format!("{}/verify_shuffle/reveal_m_a_c_key", &a.key.0[..cut]);
+                    let mut k = 0u32;
+                    let mut found = 0;
+                    for (s_, d_) in [(1u8, 2u8), (2, 3), (3, 1)] {
+                        if let Some(b) = key_msgs.get(&(kg.clone(), s_, d_, a.key.3)) {
+                            if b.len() >= 4 * word + 4 {
+                                k ^= u32::from_le_bytes(b[4 * word..4 * word + 4].try_into().unwrap());
+                                found += 1;
+                            }
+                        }
+                    }
+                    if found == 3 {
+                        a.mac_key = Some(k);
+                    }
+                }
+            }
+            let rec = Arc::new(Recorder { actions, ..Default::default() });
             let t1 = std::time::Instant::now();
-            let o = run_guarded(shards, rec.clone(), pad_of(t[2]), c01::parse_records(t[3]), seed, secs);
+            let o = run_guarded(shards, rec.clone(), pad_of(t[2]), c01::parse_records(t[3]), seed, secs, src);
             if let Ok(dir) = std::env::var("VERIF_OUT") {
                 // wall time per case, for tuning the tiers (not part of the trace: not deterministic)
                 use std::io::Write;
@@ -411,13 +530,15 @@ pub fn exec(req: &str) -> String {
                     if hits == 0 { "untouched".into() } else { "abort-or-same same".into() }
                 }
                 Outcome::Hist(h) => format!("changed {}", nat_list(&h)),
+                Outcome::Inconsistent => "changed inconsistent-output-shares".into(),
             }
         }
         _ => panic!("harness: unknown request {req}"),
     }
 }
 
-static HONEST: Mutex<std::collections::BTreeMap<String, (Vec<u128>, u64)>> = Mutex::new(std::collections::BTreeMap::new());
+type KeyMsgs = std::collections::BTreeMap<(String, u8, u8, Option<u32>), Vec<u8>>;
+static HONEST: Mutex<std::collections::BTreeMap<String, (Vec<u128>, u64, KeyMsgs)>> = Mutex::new(std::collections::BTreeMap::new());
 
 type Chan = (String, u8, u8, Option<u32>, usize);
 
@@ -425,13 +546,13 @@ type Chan = (String, u8, u8, Option<u32>, usize);
 fn list_channels(shards: usize, pad: &str, recs: &str) -> Vec<Chan> {
     let rec = Arc::new(Recorder::default());
     let sh = shards.to_string();
-    let _ = run_blocking(shards, rec.clone(), pad_of(pad), c01::parse_records(recs), seed_of(&sh, pad, recs), 60);
+    let _ = run_blocking(shards, rec.clone(), pad_of(pad), c01::parse_records(recs), seed_of(&sh, pad, recs), 60, None);
     let seen = rec.seen.lock().unwrap();
     seen.iter().map(|((g, s, d, x), n)| (g.clone(), *s, *d, *x, *n)).collect()
 }
 
 fn act(c: &Chan, pat: &str) -> String {
-    format!("H{}|{}|{pat}|{}", c.2, c.3.map_or("-".to_string(), |x| x.to_string()), c.0)
+    format!("{}{}|{}|{pat}|{}", c.1, c.2, c.3.map_or("-".to_string(), |x| x.to_string()), c.0)
 }
 
 fn prev_h(h: u8) -> u8 { (h + 1) % 3 + 1 }
@@ -487,6 +608,15 @@ fn gen_tamper(rng: &mut Rng, thorough: bool, shards: usize, pad: &str, recs: &st
             cases.push(format!("{head} H{} {}", c.1, act(&c, &blind_pattern(rng, ci + k, n))));
         }
     }
+    // 1b. the row-carrying messages of the shuffles: every (sender, receiver) pair, not just one per class
+    //     (each direction is checked by a different hash comparison of `verify_shuffle`)
+    for (ci, (class, members)) in classes.iter().enumerate() {
+        if class.ends_with("/transfer_x_y") || class.ends_with("/transfer_c") {
+            for (k, c) in members.iter().enumerate() {
+                cases.push(format!("{head} H{} {}", c.1, act(c, &blind_pattern(rng, ci + k + 4, c.4))));
+            }
+        }
+    }
     // 2. additive offsets at field-element granularity
     let reps = if thorough { 6 } else { 1 };
     for (class, members) in &classes {
@@ -524,9 +654,13 @@ fn gen_tamper(rng: &mut Rng, thorough: bool, shards: usize, pad: &str, recs: &st
     for k in 0..n_lane {
         let corrupt = (k % 3) as u8 + 1;
         let x = *rng.pick(&shard_ids);
-        let (Some(m), Some(o)) = (
+        let (Some(m), Some(o), Some(i1), Some(i2)) = (
             find("eval_prf/malicious_protocol/mult_mask_with_p_r_f_input", corrupt, prev_h(corrupt), x),
             find("eval_prf/malicious_protocol/revealz", corrupt, next_h(corrupt), x),
+            // what the corrupt helper itself receives in the opening (so that it opens the same altered value
+            // and stays in step with the honest helpers)
+            find("eval_prf/malicious_protocol/revealz", prev_h(corrupt), corrupt, x),
+            find("eval_prf/malicious_protocol/revealz", next_h(corrupt), corrupt, x),
         ) else { continue };
         let records = m.4 / (32 * LANES);
         let r = rng.usize_below(records.max(1));
@@ -539,10 +673,11 @@ fn gen_tamper(rng: &mut Rng, thorough: bool, shards: usize, pad: &str, recs: &st
         };
         let d = 1 + rng.below(1000);
         let (ei, ej) = (r * LANES + i, r * LANES + j);
-        let acts = [
-            act(&m, &format!("f25:{ei}:p{d}")), act(&m, &format!("f25:{ej}:m{d}")),
-            act(&o, &format!("f25:{ei}:p{d}")), act(&o, &format!("f25:{ej}:m{d}")),
-        ];
+        let mut acts = vec![];
+        for c in [&m, &o, &i1, &i2] {
+            acts.push(act(c, &format!("f25:{ei}:p{d}")));
+            acts.push(act(c, &format!("f25:{ej}:m{d}")));
+        }
         cases.push(format!("{head} H{corrupt} {}", acts.join(",")));
     }
     // 4. swapping two records / replaying an earlier record, on channels that carry several records
@@ -567,6 +702,20 @@ fn gen_tamper(rng: &mut Rng, thorough: bool, shards: usize, pad: &str, recs: &st
         let pat = if k % 2 == 0 { format!("swaprec:{size}:{lo}:{hi}") } else { format!("replay:{size}:{lo}:{hi}") };
         cases.push(format!("{head} H{} {}", c.1, act(&c, &pat)));
     }
+    // 5. MAC-consistent row change in a verified shuffle by H2, which learns the keys from H1's early opening:
+    //    `c1` (H2 -> H3) gets `delta` in a data word and `key * delta` in the tag; the same change on `c2` (H3 -> H2)
+    //    keeps H2's own share in step
+    let mut macshift: Vec<String> = vec![];
+    for (sh_gate, size) in [("aggregate/shuffle/transfer_c", 8usize), ("input_shuffle/transfer_c", 18usize)] {
+        let x = shard_ids[0];
+        let (Some(c1), Some(c2)) = (find(sh_gate, 2, 3, x), find(sh_gate, 3, 2, x)) else { continue };
+        if c1.4 % size != 0 || c1.4 < size {
+            continue;
+        }
+        let row = rng.usize_below(c1.4 / size);
+        let pat = format!("macshift:{size}:{row}:0:1");
+        macshift.push(format!("{head} H2 {},{}", act(&c1, &pat), act(&c2, &pat)));
+    }
     match budget {
         // `(blind, structured)`: a sample of each group (the lane-correlated cases always included)
         Some((bb, bs)) => {
@@ -574,7 +723,7 @@ fn gen_tamper(rng: &mut Rng, thorough: bool, shards: usize, pad: &str, recs: &st
                 let a = c.rsplit(' ').next().unwrap_or("");
                 !a.contains(',') && ["|flip:", "|add:", "|zero|"].iter().any(|p| a.contains(p))
             });
-            let (lane, mut rest): (Vec<String>, Vec<String>) = structured.into_iter().partition(|c| c.matches("f25:").count() == 4);
+            let (lane, mut rest): (Vec<String>, Vec<String>) = structured.into_iter().partition(|c| c.matches("f25:").count() == 8);
             if blind.len() > bb {
                 rng.shuffle(&mut blind);
                 blind.truncate(bb);
@@ -589,6 +738,7 @@ fn gen_tamper(rng: &mut Rng, thorough: bool, shards: usize, pad: &str, recs: &st
         }
         None => out.extend(cases),
     }
+    out.extend(macshift);
 }
 
 pub const RECS: &str = "i:11:3,c:11:2,i:12:3,c:12:5,c:13:1,c:13:2,i:14:9,i:15:1,c:15:4,c:16:3,i:17:3,c:17:1";
@@ -624,7 +774,12 @@ fn verif_c02_channels() {
         "c02_channels",
         |rng, _thorough| {
             let big = big_records(rng);
-            vec![format!("c02.channels 1 0 {RECS}"), format!("c02.channels 1 1 {RECS}"), format!("c02.channels 2 0 {big}")]
+            vec![
+                format!("c02.channels 1 0 {RECS}"),
+                format!("c02.channels 1 1 {RECS}"),
+                format!("c02.channels 2 0 {big}"),
+                format!("c02.shardtraffic 2 0 {big}"),
+            ]
         },
         exec,
     );
